@@ -1,8 +1,8 @@
 SPECIFICATION Spec
 CONSTANTS
-  AlgoPrms <- AlgoPrmsFree
-  Mats <- MatsFree
-  States <- StatesFree
+  AlgoPrms <- AlgoPrmsThorough
+  Mats <- MatsOne
+  States <- StatesOne
   Loads <- LoadsZero
   Gs <- GsOne
   ConsSet <- FreeOnly
@@ -11,11 +11,6 @@ CONSTANTS
   MatChange = FALSE
   Mutant = "none"
 INVARIANT Motion
-INVARIANT Prescribed
 INVARIANT UpdateRel
-INVARIANT Conserve
-INVARIANT Dissipate
-INVARIANT NewmarkEquilibrium
-INVARIANT Family
 INVARIANT Affine
-INVARIANT EmitOK
+INVARIANT EmitWT
